@@ -206,6 +206,8 @@ type Node struct {
 	VarX    *SExpr
 
 	BlockComment bool // KGoComment: /* */ instead of //
+
+	Sp uint8 // spelling selector (0 = canonical): brace padding, brace position
 }
 
 // Component is one `templ` function of a file.
